@@ -267,7 +267,8 @@ def check_byte_xor(ctx, rule, P):
         if g.kind == "Closure" and g.j.get("parent_key") == fn.key:
             r = evaluate(g).ret
             if r.op == "bin" and r.a[0] == "BitXor":
-                ok_map = any(s.callee[0] == "Iterator::map" for s in ev.sites.values()) and any(s.callee[0] == "Iterator::collect" for s in ev.sites.values())
+                # collected, or handed as a whole to `extend` / `from_iter` of the result vector
+                ok_map = any(s.callee[0] == "Iterator::map" for s in ev.sites.values()) and any(s.callee[0] in ("Iterator::collect", "Extend::extend", "Vec::<T, A>::extend", "FromIterator::from_iter", "Vec::<T>::from_iter") for s in ev.sites.values())
     zips = [s for s in ev.sites.values() if s.callee[0] == "Iterator::zip"]
     both = False
     if zips:
